@@ -165,9 +165,49 @@ def faults(cfg, rng):
         m('track-board-not-in-board-file', b['id'], ('drop-from-board-file', bi))
     return out
 
+NUMERIC_KEYS = ('unique-id', 'number', 'value', 'port', 'dcc-address', 'extended', 'address', 'bit', 'dcc-speed-steps')
+
+def malformed_value_faults(cfg, rng, limit=24):
+    """text-level faults: one numeric value of one of the three files gets a character that is not a digit of its notation (at the first, a middle
+    or the LAST digit position), or - unique ids - a wrong number of digits. 'A value malformed' must be rejected wherever it stands."""
+    import re
+    texts = (cfggen.board_yaml(cfg), cfggen.track_yaml(cfg), cfggen.train_yaml(cfg))
+    cands = []
+    for fi, t in enumerate(texts):
+        for li, l in enumerate(t.split('\n')):
+            m_ = re.match(r'^(\s*(?:- )?)([a-z-]+): (\S+)\s*$', l)
+            if m_ and m_.group(2) in NUMERIC_KEYS:
+                cands.append((fi, li, m_.group(1), m_.group(2), m_.group(3)))
+            m2 = re.match(r'^(\s*- )(0x[0-9A-Fa-f]+|\d+)\s*$', l)
+            if m2:
+                cands.append((fi, li, m2.group(1), None, m2.group(2)))            # list entries (calibration)
+    rng.shuffle(cands)
+    cands.sort(key=lambda c_: c_[3] != 'unique-id')
+    out = []
+    for (fi, li, pre, key, v) in cands[:limit]:
+        digits0 = 2 if v.lower().startswith('0x') else 0
+        n = len(v) - digits0
+        if n <= 0:
+            continue
+        where = rng.choice(['first', 'mid', 'last', 'last'])
+        pos = digits0 if where == 'first' else len(v) - 1 if where == 'last' else digits0 + n // 2
+        bad = v[:pos] + rng.choice('GgxZ') + v[pos + 1:]
+        variants = [bad]
+        if key == 'unique-id':
+            variants = [v[:q] + 'G' + v[q + 1:] for q in (2, 9, len(v) - 1)] + [v[:-1], v + '0', v[2:]]
+        for b in variants[:2] if key != 'unique-id' else variants:
+            out.append(('malformed-value', f'{("board", "track", "train")[fi]}:{key or "list"}:{v}->{b}', ('text', fi, li, pre + (key + ': ' if key else '') + b)))
+    return out
+
 def apply_fault(cfg, f):
     c = copy.deepcopy(cfg)
     name, pos, fn = f
+    if isinstance(fn, tuple) and fn[0] == 'text':
+        texts = [cfggen.board_yaml(c), cfggen.track_yaml(c), cfggen.train_yaml(c)]
+        ls = texts[fn[1]].split('\n')
+        ls[fn[2]] = fn[3]
+        texts[fn[1]] = '\n'.join(ls)
+        return tuple(texts)
     if isinstance(fn, tuple) and fn[0] == 'drop-from-board-file':
         c2 = copy.deepcopy(c)
         del c2['boards'][fn[1]]
@@ -202,13 +242,13 @@ def run(ctx):
     for k in range(nbases):
         rng = ctx.sub_rng('c14f', k)
         cfg = cfggen.gen_config(rng, nboards=rng.randrange(2, 5), wide_dcc=(k % 2 == 1), odd_ids=(k % 4 == 3))
-        fs = faults(cfg, rng)
+        fs = faults(cfg, rng) + malformed_value_faults(cfg, rng)
         bycls = {}
         for f in fs:
             bycls.setdefault(f[0], []).append(f)
         for cls, lst in sorted(bycls.items()):
             rng.shuffle(lst)
-            for f in lst[:10 if not ctx.quick else 4]:
+            for f in lst[:(10 if not ctx.quick else 4) if cls != 'malformed-value' else 40]:
                 texts = apply_fault(cfg, f)
                 d = cfggen.write_config(cfg, cfg_dir(f'c14f_{k}_{len(jobs)}'), texts)
                 sc = Scn(seed=ctx.seed * 67 + k, watchdog=240000)
